@@ -3,7 +3,7 @@
 From Coq Require Import List Bool Arith.
 Import ListNotations.
 From PV Require Import Model.Status Model.StatusDef gen.StatusTable_gen Model.StatusImpl
-  Model.Lifecycle Proofs.StatusProofs.
+  Model.Lifecycle Proofs.StatusProofs gen.Atomicity_gen.
 
 (* The table generated from status.py:_CONFIG, run through the mirror of
    status_record_transition, IS the documented single step — for every current record (or
@@ -77,6 +77,14 @@ Theorem finals_never_left_in_history : forall l b,
   rpath (b :: l) -> forallb (fun a => negb (doc_final a)) l = true.
 Proof. exact rpath_no_final_inside. Qed.
 Print Assumptions finals_never_left_in_history.
+
+(* The operations of the sequences above are the orchestrators' status changes, each ONE step: the read of the current record, its
+   validation and the write are not separable by another requester (generated from the two _atomic_status_transition methods:
+   one BEGIN IMMEDIATE transaction; one critical section of a per-invocation lock that is obtained atomically and never
+   retired).  With a separable read / write two requesters are validated against the same record and both written: the
+   observed sequence then contains a non-edge (C02 carries the interleaved machine and the refutation). *)
+Theorem each_status_change_is_one_step : sqlite_transition_immediate = true /\ mem_transition_atomic = true.
+Proof. exact (conj eq_refl eq_refl). Qed.
 
 (* non-vacuity: a concrete run reaches a final status through RETRY and a second claim *)
 Example c01_nonvacuous :
